@@ -28,6 +28,8 @@ smaller, non-negative measure (so the definition is a well-founded recursion, he
 """
 from __future__ import annotations
 import ast
+import os
+import sys
 import z3
 
 from .values import *  # noqa
@@ -147,11 +149,129 @@ def loop_spec(interp, node, fr):
     hv = opts.get("havoc")
     names = [k for k, _ in (hv.pairs if isinstance(hv, PyDict) else list((hv or {}).items()))]
     names += [p.arg for p in f.node.args.args if p.arg not in ("entry", "loop_seen", "loop_item")]
-    missing = [n for n in names if n not in fr.locals]
+    missing = [n for n in dict.fromkeys(names) if n not in fr.locals]
     if missing:
-        interp.ctx.notes.append(f"loop contract {q}#{ordinal} not applicable: the function has no local(s) {missing}; loop executed by unrolling")
-        return None
+        re = _rebind(interp, fr, node, q, ordinal, spec, names, missing)
+        if os.environ.get("PYVC_DEBUG"):
+            print(f"[loops] {q}#{ordinal} missing={missing} rebind={'yes' if re else 'no'} locals={sorted(fr.locals)}", file=sys.stderr)
+        if re is None:
+            interp.ctx.notes.append(f"loop contract {q}#{ordinal} not applicable: the function has no local(s) {missing}; loop executed by unrolling")
+        return re
     return spec
+
+
+# ------------------------------------------------------------------------------------------------
+# renamed locals: re-binding the names of a loop contract
+# ------------------------------------------------------------------------------------------------
+_SCALAR = ("int", "bool")
+
+
+def _compatible(val, kind):
+    if kind is None:
+        return True
+    if kind == "int":
+        return is_intlike(val) and not isinstance(val, (bool, SBool))
+    if kind == "bool":
+        return isinstance(val, (bool, SBool))
+    if kind == "bytes":
+        return isinstance(val, BytesV)
+    if kind == "bytearray":
+        return isinstance(val, BytesV) and val.kind == "bytearray"
+    if kind in ("byteslist", "pairlist", "list"):
+        return isinstance(val, PyList)
+    if kind == "chunks":
+        return isinstance(val, PyDeque)
+    return False
+
+
+def _stored_names(node):
+    out = set()
+    for n in ast.walk(node):
+        if isinstance(n, ast.Name) and isinstance(n.ctx, (ast.Store, ast.Del)):
+            out.add(n.id)
+    return out
+
+
+class _Rename(ast.NodeTransformer):
+    def __init__(self, m):
+        self.m = m
+
+    def visit_Name(self, n):
+        if n.id in self.m:
+            return ast.copy_location(ast.Name(self.m[n.id], n.ctx), n)
+        return n
+
+    def visit_arg(self, n):
+        if n.arg in self.m:
+            n.arg = self.m[n.arg]
+        return n
+
+    def visit_Attribute(self, n):
+        self.generic_visit(n)
+        if isinstance(n.value, ast.Name) and n.value.id == "entry" and n.attr in self.m:
+            n.attr = self.m[n.attr]
+        return n
+
+
+def _rebind(interp, fr, node, q, ordinal, spec, names, missing):
+    """The function was refactored and no longer has some locals the contract names.  A contract is a statement about
+    the loop's state, not about identifiers: try to re-bind each missing name to the one local of the function that can
+    play its role (same kind of value; a havoc'd scalar must be assigned in the loop body, a name the contract does not
+    havoc must not be).  The re-bound contract is then checked like any other - a wrong binding fails its obligations, it
+    cannot make a proof pass that should not.  Ambiguous or impossible: None (plain execution of the loop)."""
+    import copy
+    cache = getattr(interp, "_loop_rebind", None)
+    if cache is None:
+        cache = interp._loop_rebind = {}
+    key = (q, ordinal, id(fr.func.node))
+    if key in cache:
+        return cache[key]
+    opts, f = spec
+    kinds = {}
+    for (q2, _), (o2, _f2) in interp.loop_specs.items():       # kinds of the names, from every contract of this function
+        if q2 != q:
+            continue
+        hv2 = o2.get("havoc")
+        for k, td in (hv2.pairs if isinstance(hv2, PyDict) else list((hv2 or {}).items())):
+            kinds.setdefault(k, getattr(td, "kind", None))
+    hv = opts.get("havoc")
+    pairs = hv.pairs if isinstance(hv, PyDict) else list((hv or {}).items())
+    havocd = {k for k, _ in pairs}
+    stored = _stored_names(node)
+    taken = set(names) - set(missing)
+    # names of the function's other loop contracts stay reserved for them
+    mapping = {}
+    result = None
+    ok = True
+    for n in missing:
+        kind = kinds.get(n)
+        cands = []
+        for loc, val in fr.locals.items():
+            if loc in taken or loc in mapping.values() or loc in ("entry", "loop_seen", "loop_item"):
+                continue
+            if kind is None or not _compatible(val, kind):
+                continue
+            if n in havocd and kind in _SCALAR and loc not in stored:
+                continue
+            if n not in havocd and loc in stored:
+                continue
+            cands.append(loc)
+        if len(cands) != 1:
+            ok = False
+            break
+        mapping[n] = cands[0]
+    if ok:
+        nf = FuncV(_Rename(mapping).visit(copy.deepcopy(f.node)), f.globs, f.qualname, f.defcls, f.closure, f.module)
+        nf.defaults, nf.kw_defaults = f.defaults, f.kw_defaults
+        nopts = dict(opts) if not isinstance(opts, PyDict) else opts
+        if hv is not None:
+            npairs = [(mapping.get(k, k), td) for k, td in pairs]
+            nopts = dict(opts)
+            nopts["havoc"] = PyDict(npairs) if isinstance(hv, PyDict) else dict(npairs)
+        interp.ctx.notes.append(f"loop contract {q}#{ordinal}: contract names re-bound to renamed locals {mapping}")
+        result = (nopts, nf)
+    cache[key] = result
+    return result
 
 
 # ------------------------------------------------------------------------------------------------
